@@ -220,6 +220,73 @@ def gen_tio(ctx):
     return L
 
 
+def rand_script(rng, capa):
+    n = rng.choice([0, 1, 2, 2, 3, 4, 6, 9])
+    toks = []
+    for _ in range(n):
+        k = rng.random()
+        if k < 0.55:
+            toks.append(str(rng.choice([1, 1, 2, 3, 5, 7, capa - 1, capa, 10 * capa, rng.randrange(1, capa + 2)])))
+        elif k < 0.75:
+            toks.append("0")
+        else:
+            toks.append("f")
+    return ",".join(toks) or "-"
+
+
+def gen_write(ctx):
+    """write side against a scripted handler (accept k / accept nothing / fail at call j): tio level (`tiox`) and print on the
+    console of the standard runtime with write(2) interposed in-process (`prt`)"""
+    rng = ctx.rng
+    quick = ctx.tier == "quick"
+    L = []
+    hello = "68,65,6c,6c,6f,20,77,6f,72,6c,64,a"
+    # exhaustive: every script of length <= 3 over {accept 1, accept 5, accept all, 0, f} for a few call lists
+    alpha = ["1", "5", "99", "0", "f"]
+    calls = ["u:%s/F" % hello, "u:%s/F/F" % hello, "b:68656c6c6f20776f726c640a/F/F", "u:61,62/u:a/u:20ac,e9/u:a/F", "u:%s/u:%s/F/F" % (hello, hello)]
+    import itertools
+    for n in (0, 1, 2, 3):
+        for sc in itertools.product(alpha, repeat=n):
+            for c in (calls if n < 3 else calls[:2]):
+                L.append("tiox 32 i %s %s" % (",".join(sc) or "-", c))
+    # random
+    for _ in range(600 if quick else 20000):
+        capa = rng.choice([32, 33, 34, 48])
+        ops = []
+        for _ in range(rng.randrange(1, 7)):
+            k = rng.random()
+            if k < 0.5:
+                if rng.random() < 0.3:
+                    seg = [0x61] * rng.randrange(capa - 4, capa + 2) + [rng.choice([0xE9, 0x20AC, 0xFFFF])] + [rng.choice([0x62, 0x0A])]
+                else:
+                    seg = [rand_char(rng) for _ in range(rng.randrange(0, 40))]
+                ops.append("u:" + (",".join("%x" % c for c in seg) or "-"))
+            elif k < 0.75:
+                bs = bytes(rng.randrange(256) if rng.random() < 0.85 else 0x0A for _ in range(rng.choice([0, 1, 5, capa - 1, capa, capa + 1, 2 * capa + 3, rng.randrange(0, 90)])))
+                ops.append("b:" + (bs.hex() or "-"))
+            else:
+                ops.append("F")
+        ops += rng.choice([[], ["F"], ["F", "F"], ["F", "F", "F"]])
+        L.append("tiox %d %s %s %s" % (capa, rng.choice(["i", "i", "in", "-"]), rand_script(rng, capa), "/".join(ops)))
+    # print through the std console handler, write(2) scripted
+    words = [b"hello world", b"a", b"", b"\xc3\xa9\xe2\x82\xac", b"x" * 70, b"0123456789" * 30, "가나다 €".encode()]
+    for n in (0, 1, 2, 3):
+        for sc in itertools.product(["1", "5", "0", "f"], repeat=n):
+            L.append("prt %s %s" % (",".join(sc) or "-", fmt_chunks([b"hello world"])))
+            if n <= 2:
+                L.append("prt %s %s" % (",".join(sc) or "-", fmt_chunks([b"ab", b"\xc3\xa9", b"cd"])))
+    for _ in range(120 if quick else 3000):
+        ts = [rng.choice(words) for _ in range(rng.randrange(1, 6))]
+        if rng.random() < 0.1:
+            ts.append(b"y" * rng.choice([2047, 2048, 2049, 4100]))
+        toks = []
+        for _ in range(rng.choice([0, 1, 2, 3, 5])):
+            k = rng.random()
+            toks.append(str(rng.choice([1, 2, 5, 11, 12, 13, 100, 2048, 5000])) if k < 0.6 else ("0" if k < 0.75 else "f"))
+        L.append("prt %s %s" % (",".join(toks) or "-", fmt_chunks(ts)))
+    return L
+
+
 # ----------------------------------------------------------------------------
 # property oracle (independent of the Lean model)
 # ----------------------------------------------------------------------------
@@ -403,8 +470,121 @@ def oracle_line(l, o):
             if got != exp:
                 k = next((i for i in range(min(len(got), len(exp))) if got[i] != exp[i]), min(len(got), len(exp)))
                 return "bytes written differ from the reference encoding at byte %d (%d written, %d expected)" % (k, len(got), len(exp))
+        elif w[0] == "tiox":
+            return oracle_tiox(w, o)
+        elif w[0] == "prt":
+            return oracle_prt(w, o)
     except Exception as e:
         return "unparsable output %r (%r)" % (o[:120], e)
+    return None
+
+
+def parts_match(stream, items):
+    """items: [(text, ok)] in call order.  True when `stream` is the concatenation of one part per call, the part being the
+    whole text of a call that reported success and some prefix of the text of a call that reported failure"""
+    memo = {}
+
+    def go(i, pos):
+        if i == len(items):
+            return pos == len(stream)
+        key = (i, pos)
+        if key in memo:
+            return memo[key]
+        text, ok = items[i]
+        res = False
+        if ok:
+            res = stream[pos:pos + len(text)] == text and go(i + 1, pos + len(text))
+        else:
+            for k in range(0, len(text) + 1):
+                if stream[pos:pos + k] != text[:k]:
+                    break
+                if go(i + 1, pos + k):
+                    res = True
+                    break
+        memo[key] = res
+        return res
+    sys.setrecursionlimit(max(sys.getrecursionlimit(), 10000))
+    return go(0, 0)
+
+
+def oracle_tiox(w, o):
+    """byte layer of "exactly once, in order, however few bytes the handler accepts; a failure is a negative return, never data
+    lost under a success": independent of the Lean model"""
+    capa, script = int(w[1]), ([] if w[3] == "-" else w[3].split(","))
+    ops = [] if w[4] == "." else w[4].split("/")
+    head, _, sinks = o.rpartition(" sink=")
+    sink = [] if sinks == "." else [p_bytes(x) for x in sinks.split("/")]
+    outs = head.split(" ") if head else []
+    if len(outs) != len(ops):
+        return "%d results for %d calls" % (len(outs), len(ops))
+    items = []
+    staged = b""
+    prev_len = 0
+    for op, r in zip(ops, outs):
+        ret, ln, buf, calls = r.split("|")
+        ln = int(ln); staged = p_bytes(buf)
+        if ln > capa or len(staged) != ln:
+            return "outbuf_len %d beyond the capacity %d (or staged bytes not dumped)" % (ln, capa)
+        if op == "F":
+            if ret.startswith("n"):
+                if int(ret[1:]) + ln != prev_len:
+                    return "flush returned %s but the staged length went from %d to %d" % (ret, prev_len, ln)
+            elif ret != "EIOERR":
+                return "flush returned %s" % ret
+            elif ln == 0:
+                return "flush failed with nothing left staged"
+            items.append((b"", True))
+        else:
+            text = b"".join(u8(int(c, 16) & 0xFFFF) for c in op[2:].split(",")) if (op[0] == "u" and op[2:] != "-") else (p_bytes(op[2:]) if op[0] == "b" else b"")
+            if ret not in ("ok", "EIOERR", "EBUFFULL"):
+                return "write returned %s" % ret
+            if ret == "EBUFFULL" and prev_len < capa:
+                return "EBUFFULL although the staging buffer was not full (%d of %d)" % (prev_len, capa)
+            items.append((text, ret == "ok"))
+        if ret == "EIOERR" and "f" not in script:
+            return "a call failed although the handler never failed"
+        prev_len = ln
+    if any(len(x) > capa or len(x) == 0 for x in sink):
+        return "the handler was offered/accepted a slice outside 1..capacity"
+    stream = b"".join(sink) + staged
+    if not parts_match(stream, items):
+        exp = b"".join(t for t, _ in items)
+        k = next((i for i in range(min(len(stream), len(exp))) if stream[i] != exp[i]), min(len(stream), len(exp)))
+        return ("bytes accepted by the handler + bytes staged are not the text written (whole for calls that reported success, a prefix for calls that "
+                "reported failure): %d bytes vs %d written, first difference at byte %d: got %r expected %r" % (len(stream), len(exp), k, stream[max(0, k - 6):k + 12], exp[max(0, k - 6):k + 12]))
+    return None
+
+
+def oracle_prt(w, o):
+    script = [] if w[1] == "-" else w[1].split(",")
+    texts = p_chunks(w[2])
+    f = kv(o)
+    ec, calls = int(f["ec"]), int(f["calls"])
+    sink = [] if f["sink"] == "." else [p_bytes(x) for x in f["sink"].split("/")]
+    delivered = b"".join(sink)
+    if ec == 0:
+        m = len(texts)
+    elif 101 <= ec <= 100 + len(texts):
+        m = ec - 100
+    else:
+        return "the run ended with %d" % ec
+    exp = b"".join(t + b"\n" for t in texts[:m])
+    if "f" not in script and "0" not in script and ec != 0:
+        return "print reported a failure (exit %d) although write(2) never failed nor returned 0" % ec
+    okpre = exp.startswith(delivered)
+    if not okpre and ec != 0:
+        # the failing print: a prefix of its value may have been staged before the failure, and (HAWK_TOLERANT) ORS is written after it
+        base = b"".join(t + b"\n" for t in texts[:m - 1])
+        if delivered.startswith(base):
+            rest = delivered[len(base):]
+            okpre = texts[m - 1].startswith(rest) or (rest.endswith(b"\n") and texts[m - 1].startswith(rest[:-1]))
+    if not okpre:
+        k = next((i for i in range(min(len(delivered), len(exp))) if delivered[i] != exp[i]), min(len(delivered), len(exp)))
+        return "what reached descriptor 1 is not a prefix of the text printed: first difference at byte %d of %d delivered (%d printed): got %r expected %r" % (
+            k, len(delivered), len(exp), delivered[max(0, k - 6):k + 12], exp[max(0, k - 6):k + 12])
+    small = len(exp) < 2048
+    if calls > len(script) and small and delivered != exp:
+        return "write(2) accepted everything in the end but only %d of the %d bytes printed were delivered" % (len(delivered), len(exp))
     return None
 
 
@@ -793,7 +973,7 @@ def run(ctx):
         for f in sorted(os.listdir(cdir)):
             lines += [l.strip() for l in open(os.path.join(cdir, f)) if l.strip() and not l.startswith("#")]
     ncorpus = len(lines)
-    for name, g in [("codec", gen_codec), ("conv", gen_conv), ("tio", gen_tio)]:
+    for name, g in [("codec", gen_codec), ("conv", gen_conv), ("tio", gen_tio), ("write", gen_write)]:
         t = time.time()
         ls = g(ctx)
         lines += ls
@@ -902,6 +1082,11 @@ def run(ctx):
             return any(int(c, 16) >= 0x80 for sg in w[3].split("/") if sg != "-" for c in sg.split(",")) and len(w[3]) > 2 * int(w[1])
         if w[0] == "dec":
             return len(w[1]) >= 4 and int(w[1][:2], 16) >= 0x80
+        if w[0] == "tiox":
+            sc = w[3].split(",")
+            return any(t not in ("-", "f", "0") for t in sc) and ("f" in sc or "0" in sc)
+        if w[0] == "prt":
+            return w[1] != "-"
         return False
     nontriv = len({l for l in lines if nontrivial(l)})
     samples = [l[:160] for l in (lines[ncorpus:ncorpus + 2] + [x for x in lines if x.startswith("tior")][5:8] + [x for x in lines if x.startswith("tiow")][:1])]
@@ -911,14 +1096,17 @@ def run(ctx):
                     "random streams each under two schedules (chunking x capacity x read size), with and without IGNOREECERR, well- and ill-formed) + tio write runs; decided first by a "
                     "model-independent oracle (python's UTF-8 codec as reference for well-formed BMP text, byte identity, equal characters under two schedules, bounds, determinism, sanitizer/hang), "
                     "then line by line against the Lean model (every call's result and the staging cursor/length/status/unread bytes); language level: identity / re-join / length programs over every "
-                    "BMP scalar at several alignments, edge placements, ill-formed files, piped chunks vs file, byte-string programs over all 256 byte values. distinct_nontrivial = distinct tio reads whose "
+                    "BMP scalar at several alignments, edge placements, ill-formed files, piped chunks vs file, byte-string programs over all 256 byte values; write side against a scripted handler (accept k / accept nothing / fail at call j): every script of length <= 3 over a 5-reply "
+                    "alphabet x call lists + random (`tiox`: return values, outbuf_len, staged bytes, handler calls, accepted slices) and print on the std console with write(2) interposed in-process (`prt`); "
+                    "oracle there: accepted + staged = whole text of calls that reported success and a prefix for calls that reported failure, nothing twice, a final flush completes. "
+                    "distinct_nontrivial = distinct tio reads whose "
                     "stream has a byte >= 0x80 and is split by chunks, the staging capacity or the read size, + distinct tio writes with multibyte characters beyond twice the capacity + distinct "
                     "decodes of >= 2 bytes with a non-ASCII lead",
                     samples, extra_cov=dict(op_distribution=dist, harness_aborts=len(aborts), skipped_predicted_repeats=len(skipped), oracle_hits=oracle_hits,
                                             differing_ops=ndiff, cli_runs=ncli, table_rows=len(info["rows"])),
                     trusted=["utf8.c/utl.c/tio.c loops modelled by hand in HawkModel/Utf8.lean and HawkModel/Tio.lean; only utf8_table[] is machine-translated (extract/utf8_table.py checks the loop constants textually)",
                              "byte-string value paths (val.c, run.c concat, fnc.c substr, fmt %s, rio byte reads) are identity on lists in the model and tied only by the language-level runs",
-                             "output handler modelled as accepting every write completely; hawk_tio_flush's retry loop and handler errors are not modelled"],
+                             "output handler modelled as a reply script (accept 1..offered bytes / 0 / fail); a handler claiming more than it was offered is not modelled; print's segmentation into value + ORS writes (rio.c) is assumed by the `prt` stage and checked only by correspondence"],
                     assumptions=["hawk_uch_t is the unsigned 16-bit type of the checked build (-fshort-wchar); default cmgr utf8",
                                  "staging capacities >= HAWK_TIO_MININBUFCAPA/MINOUTBUFCAPA as hawk_tio_attachin/out enforce",
                                  "a CR directly before a newline belongs to the line terminator (rio.c), so generated lines never end in CR"])
